@@ -362,6 +362,14 @@ fn text(d: &mut Dec, cx: &mut Cx) -> Res {
                 let mut n2 = NullT::<Rgb888>::new(BIG_BOX, budget, true);
                 t.draw(&mut n2).map_err(|_| "draw() on a native-fill target exceeds the pixel budget".to_string())?;
                 let _ = t.translate(Point::new(-pos.x, 1)).bounding_box();
+                // the renderer interface directly: whitespace of display-scale width, measuring
+                use embedded_graphics::text::renderer::TextRenderer;
+                let ws = (pos.x.unsigned_abs() * 7 + 3) % 1025;
+                let mut n3 = NullT::<Rgb888>::new(BIG_BOX, 64 * (1100 * 64 + 4096) * 4, true);
+                style.draw_whitespace(ws, pos, baseline, &mut n3).map_err(|_| "draw_whitespace exceeds the pixel budget".to_string())?;
+                style.draw_whitespace(0, pos, baseline, &mut n3).map_err(|_| "draw_whitespace exceeds the pixel budget".to_string())?;
+                let _ = style.measure_string(&s, pos, baseline);
+                let _ = style.draw_string(&s, pos, baseline, &mut n3);
                 Ok(())
             })
         });
